@@ -337,6 +337,57 @@ def box_joins(seed, n):
     return out
 
 
+# x<0 and x>0 in both forms (x <= -1 / x < 0): the sign domain only understands comparisons with 0
+SIGN_CLASSES = ["C lt E 1 1 %d 0", "C le E 1 1 %d 1", "C le E 1 1 %d 0", "C eq E 1 1 %d 0", "C le E 1 -1 %d 0", "C lt E 1 -1 %d 0",
+                "C le E 1 -1 %d 1", "C ne E 1 1 %d 0", None]
+
+
+def sign_cases(seed, n):
+    """x and y pinned to a sign class each (<0, <=0, =0, >=0, >0, !=0, unknown), z := x op y, then the
+    five sign probes on z and a final assume on z; dense sample of small stores"""
+    rng = random.Random(seed)
+    out = []
+    for _ in range(n):
+        cx, cy = rng.choice(SIGN_CLASSES), rng.choice(SIGN_CLASSES)
+        ops = []
+        if cx: ops.append("assume 0 1 %s" % (cx % 0))
+        if cy: ops.append("assume 0 1 %s" % (cy % 1))
+        f = rng.choice(["mul", "mul", "add", "sub", "sdiv", "srem"])
+        ops.append("arith 0 %s 2 0 v 1" % f)
+        for c in ["C ne E 1 1 %d 0", "C le E 1 1 %d 1", "C le E 1 -1 %d 1", "C le E 1 1 %d 0", "C le E 1 -1 %d 0"]:
+            ops.append("q_entails 0 %s" % (c % 2))
+        ops.append("assume 0 1 %s" % (rng.choice(SIGN_CLASSES[:8]) % 2))
+        ops.append("q_at 0")
+        out.append("hist 2 3 ; " + " ; ".join(ops))
+    return out
+
+
+def sign_lattice(seed, n):
+    """two registers whose variable is pinned to a sign class each; join / widening / meet in both orders;
+    the five sign probes on the result; inclusion of the operands.  All pairs of classes with join in
+    both orders come first (162 cases), then the other operations."""
+    rng = random.Random(seed)
+    combos = [(c0, c1, "join", o) for c0 in SIGN_CLASSES for c1 in SIGN_CLASSES for o in ((0, 1), (1, 0))]
+    rest = [(c0, c1, op, o) for c0 in SIGN_CLASSES for c1 in SIGN_CLASSES for op in ("widen", "meet") for o in ((0, 1), (1, 0))]
+    rng.shuffle(rest)
+    combos += rest
+    out = []
+    for (c0, c1, op, (a, b)) in combos[:n]:
+        ops = []
+        if c0: ops.append("assume 0 1 %s" % (c0 % 0))
+        if c1: ops.append("assume 1 1 %s" % (c1 % 0))
+        ops.append("%s 2 %d %d" % (op, a, b))
+        for c in ["C ne E 1 1 %d 0", "C le E 1 1 %d 1", "C le E 1 -1 %d 1", "C le E 1 1 %d 0", "C le E 1 -1 %d 0"]:
+            ops.append("q_entails 2 %s" % (c % 0))
+        if op != "meet":
+            ops += ["q_leq 0 2", "q_leq 1 2"]
+        else:
+            ops += ["q_leq 2 0", "q_leq 2 1"]
+        ops.append("q_at 2")
+        out.append("hist 3 2 ; " + " ; ".join(ops))
+    return out
+
+
 def cong_meets(seed, n):
     """scripted meets of two arithmetic progressions x = A*k1 + a and x = B*k2 + b (moduli not coprime,
     remainders different, a common element exists), then the result is pinned to a common element
